@@ -89,7 +89,7 @@ impl Core {
                     }
                     "cas" => {
                         let v = names.val_in(e["v"].as_str().unwrap_or(""));
-                        node.insert("v".into(), json!({"Cas": [v, e["n"].as_u64().unwrap_or(0)]}));
+                        node.insert("v".into(), json!({"Cas": [v, crate::util::ver_in(e["n"].as_u64().unwrap_or(0))]}));
                     }
                     _ => {}
                 }
@@ -131,7 +131,7 @@ impl Core {
             "cget" => {
                 let k = self.names.key_in(&r["key"]);
                 match self.wb.cget(&k) {
-                    Ok((v, n)) => json!({"t": "cval", "v": self.names.val_out(&v), "n": n}),
+                    Ok((v, n)) => json!({"t": "cval", "v": self.names.val_out(&v), "n": crate::util::ver_out(n)}),
                     Err(e) => Self::err(e),
                 }
             }
@@ -172,7 +172,7 @@ impl Core {
                 let k = self.names.key_in(&r["key"]);
                 let v = self.names.val_in(&s(r, "val"));
                 let id = self.names.id(&c);
-                match self.wb.cset(k, v, u(r, "ver"), id, false).await {
+                match self.wb.cset(k, v, crate::util::ver_in(u(r, "ver")), id, false).await {
                     Ok(()) => json!({"t": "ok"}),
                     Err(e) => Self::err(e),
                 }
@@ -423,7 +423,7 @@ impl Core {
         let mut flat = vec![];
         if let Ok(kvs) = self.wb.pget("#") {
             for kv in kvs {
-                let n = self.wb.cget(&kv.key).map(|x| x.1).unwrap_or(u64::MAX);
+                let n = self.wb.cget(&kv.key).map(|x| crate::util::ver_out(x.1)).unwrap_or(2_100_000_000);
                 flat.push(json!([self.names.key_out(&kv.key), self.names.val_out(&kv.value), n]));
             }
         }
